@@ -131,7 +131,7 @@ def c16_programs(ctx, spec):
         else:
             ctx.discharged += 1
     ctx.notes.append("iupac! accepts 'X' as the gap although the runtime parser rejects it: outside both halves of the "
-                     "statement, observed as eq=2 (runtime rejects) and not a violation")
+                     "statement; no literal with X is compiled, so a maintainer may align the two either way")
 
 
 # ---------------------------------------------------------------- C17
